@@ -16,6 +16,7 @@ package bbr
 //   - an acknowledged MTU probe: SetMaxDatagramSize(larger) right AFTER the ack's congestion event
 //     (connection.go handleAckFrame), before anything else is sent;
 //   - send loop: CanSend(bytesInFlight) -> HasPacingBudget(now) -> else wake at TimeUntilSend();
+//   - ACK-only packets: OnPacketSent(t, bytesInFlight unchanged, pn, size, false), never acked/lost;
 //   - packet numbers strictly increase, gaps allowed; time is monotone.
 
 import (
@@ -230,6 +231,7 @@ type c12Sim struct {
 	mtuRaises   int64
 	tailDrops   int64
 	sentPkts    int64
+	ackOnly     int64
 	atFloor     int64
 	atCeil      int64
 }
@@ -367,6 +369,18 @@ func (s *c12Sim) send(size, mtuTo int64) {
 	if a := int64(len(s.flight)-s.fh) + s.gapAllow + c12SlotSlack; a > s.peakAllow {
 		s.peakAllow = a
 	}
+}
+
+// sendAckOnly: quic-go reports ACK-only packets too (isRetransmittable=false); they never come
+// back in a congestion event and leave a hole in the controller's per-packet map.
+func (s *c12Sim) sendAckOnly() {
+	pn := s.nextPN
+	s.nextPN++
+	s.seq++
+	s.ackOnly++
+	s.b.OnPacketSent(monotime.Time(s.now), congestion.ByteCount(s.inflight), congestion.PacketNumber(pn), 40, false)
+	s.gaps = append(s.gaps, c12Gap{end: pn + 1, n: 1})
+	s.gapAllow++
 }
 
 // pump sends while the window and the pacer allow; returns the pacing wake-up time (0: none).
@@ -668,8 +682,13 @@ func (s *c12Sim) macro(ev int) {
 		s.holdUntil = s.now + R
 		s.run(s.holdUntil)
 	case c12EvApp:
+		// nothing to send for 200 ms, but the connection keeps receiving: an ACK-only packet (not
+		// ack-eliciting, not in flight, consumes a packet number) goes out every 25 ms
 		s.hasData = false
-		s.run(s.now + int64(200*time.Millisecond))
+		for i := 0; i < 8 && s.clause == "" && s.infra == ""; i++ {
+			s.run(s.now + int64(25*time.Millisecond))
+			s.sendAckOnly()
+		}
 	case c12EvIdle:
 		s.hasData = false
 		s.run(s.now + int64(11*time.Second))
